@@ -832,12 +832,31 @@ func c19Run(c *caseCtx) (res caseResult) {
 				res.inconclusive("node setup failed")
 				return
 			}
+			alone := 0
+			if r.Intn(3) == 0 {
+				// the newcomer has been running on its own for a while (a cluster of one) and hosts actors
+				// already: joining merges the two tables in both directions
+				nd.eng.Send(nd.cl.PID(), &cluster.Members{Members: []*cluster.Member{nd.member.CloneVT()}})
+				nd.cl.Members()
+				alone = 1 + r.Intn(4)
+				for i := 0; i < alone; i++ {
+					nextID++
+					id := fmt.Sprintf("s%d", nextID)
+					pc := nd.prod
+					active["spawned/"+id] = nd.cl.Spawn(func() actor.Receiver { return &c19Actor{pc: pc} }, "spawned", actor.WithID(id))
+				}
+				nd.cl.Members()
+				interesting++
+			}
 			pushMembership()
 			if !quiesce() {
 				res.inconclusive("no quiescence after join")
 				return
 			}
 			what = fmt.Sprintf("join %s%v%s", nd.id, nd.kinds, rejoin)
+			if alone > 0 {
+				what += fmt.Sprintf(" (after running alone with %d cluster-spawned actors)", alone)
+			}
 			if len(active) > 0 {
 				interesting++
 			}
